@@ -132,6 +132,20 @@ func (hc *histChecker) onReply(op *Op, connID string) {
 	lm := hc.lm
 	lm.poll()
 	hc.nChecked++
+	if op.Cmd.Tag == "bad" {
+		// a deliberately invalid command: an error reply, and nothing appended to the log
+		if !op.Reply.isErr() {
+			w.violate(hc.class+"/reply", "a%02d op%d invalid command [%s] was answered %s instead of an error", op.Client, op.Idx, clipStr(op.Cmd.String(), 160), clipStr(op.Reply.String(), 120))
+			return
+		}
+		for k := lm.posBefore(op.Invoke); k < len(lm.entries) && lm.entries[k].step <= op.Return; k++ {
+			if lm.entries[k].conn == connID && lm.entries[k].owner == "" {
+				w.violate(hc.class+"/reply", "a%02d op%d invalid command [%s] was answered with an error but appended [%s] to the log", op.Client, op.Idx, clipStr(op.Cmd.String(), 160), clipStr(strings.Join(lm.entries[k].args, " "), 120))
+				return
+			}
+		}
+		return
+	}
 	if len(op.Cmd.Inner) > 0 {
 		hc.curConn = connID
 		hc.onScriptReply(op)
